@@ -360,7 +360,15 @@ func (b *Bundle) RegistryPackageVersions(pkgAddr regaddr.ModulePackage) versions
 	for v := range vs {
 		ret = append(ret, v)
 	}
-	ret.Sort()
+	// Versions that differ only in build metadata have no order between them
+	// as far as precedence goes; their text decides, so that the result does
+	// not depend on map iteration order.
+	sort.SliceStable(ret, func(i, j int) bool {
+		if ret[i].Same(ret[j]) {
+			return ret[i].String() < ret[j].String()
+		}
+		return ret[i].LessThan(ret[j])
+	})
 	return ret
 }
 
